@@ -658,6 +658,32 @@ def gen_cli(out):
 EXTRA.append(gen_cli)
 
 
+def limit_in(fn, var):
+    """`if <var> > N:` followed by a raise, inside fn"""
+    for n in ast.walk(fn):
+        if isinstance(n, ast.If) and isinstance(n.test, ast.Compare) and len(n.test.ops) == 1 and isinstance(n.test.ops[0], ast.Gt) \
+                and var in ast.dump(n.test.left) and any(isinstance(b, ast.Raise) for b in n.body):
+            return const(n.test.comparators[0])
+    raise ValueError('no limit on %s' % var)
+
+
+def gen_limits(out):
+    node_t = src_ast('lesscpy/plib/node.py')
+    def_t = src_ast('lesscpy/plib/deferred.py')
+    par_t = src_ast('lesscpy/lessc/parser.py')
+    out.put('process_round_limit', 'nat', lambda v: '%d%%nat' % v, lambda: limit_in(find_def(node_t, 'Node', 'process'), 'rounds'))
+    out.put('mixin_depth_limit', 'nat', lambda v: '%d%%nat' % v, lambda: limit_in(find_def(def_t, 'Deferred', 'parse'), 'depth'))
+    out.put('import_depth_limit', 'nat', lambda v: '%d%%nat' % v, lambda: limit_in(find_def(par_t, 'LessParser', 'p_statement_import'), 'importlvl'))
+
+    def recursion_reported():
+        fn = find_def(par_t, 'LessParser', 'post_parse')
+        return any(isinstance(n, ast.ExceptHandler) and n.type is not None and 'RecursionError' in ast.dump(n.type) for n in ast.walk(fn))
+    out.put('recursion_error_reported', 'bool', lambda v: 'true' if v else 'false', recursion_reported)
+
+
+EXTRA.append(gen_limits)
+
+
 def render(out):
     """-> {relative file name: text}: one Gen/P<Group>.v per group plus Gen/Params.v re-exporting all"""
     head = ['(* GENERATED by harness/gen_params.py from %s — do not edit, do not commit. *)' % REPO,
